@@ -82,4 +82,37 @@ PROPS = {
         "trusted_base": COMMON_TB + ["handler skeletons and rotation in the reference storage are hand-modelled; tied by this stream"],
         "assumptions": [],
     },
+    "C11": {
+        "proof_module": "OidcModel.Proofs.C11",
+        "theorems": ["C11.formDecode_QueryEscape", "C11.parseQuery_joinAmp", "C11.valuesOf_parseQuery_Encode",
+                     "C11.c11_query_roundtrip", "C11.c11_holds_query", "C11.c11_holds_query_mode", "C11.authResponseURL_channel",
+                     "C11.c11_fragment_wire", "C11.c11_fragment_roundtrip_partial", "C11.c11_fragment_double_encoding_witness",
+                     "C11.c11_attr_no_breakout", "C11.c11_attr_roundtrip", "C11.canon_urlNormalize", "C11.c11_form_action_target",
+                     "C11.formPostTemplate_ok", "C11.formPostAutoescape_on", "C11.template_missing_params",
+                     "C11.tokenize_render", "C11.c11_form_tags", "C11.c11_form_submission_partial",
+                     "C11.c11_form_custom_scheme_witness", "C11.c11_form_session_state_witness"],
+        "cases": {"quick": 5000, "thorough": 120000},
+        "rule": "redirect URI shape (37 shapes: plain, loopback, with query incl. colliding / quoted / malformed pairs, with fragment, query+fragment, custom scheme "
+                "hierarchical and opaque, special path bytes, userinfo, upper-case scheme, unparsable) x response mode ('', query, fragment, form_post) x response type "
+                "(code, id_token token, id_token) x response kind (code / token / error) x parameter strings (state, code, session_state, tokens, error_description) drawn "
+                "from: alphanumerics, 60 crafted strings (+ / = & % # ? space quotes angle brackets, character-reference look-alikes, markup), random ASCII punctuation, "
+                "random Unicode (Latin, Greek/Cyrillic, CJK, emoji, U+FFFD, noncharacters, U+2028), long strings, raw bytes incl. controls and invalid UTF-8 (query / fragment "
+                "modes only), empty. Entry points of the REAL code: op.AuthResponseURL and op.AuthResponseFormPost directly, op.AuthResponseCode (code drawn via op.Crypto), "
+                "op.AuthResponseToken (real tokens), op.AuthRequestError, op.TryErrorRedirect, and the HTTP path GET /authorize -> login -> GET /authorize/callback. The produced "
+                "parameters are recorded at the schema-encoder boundary. The Lean driver recomputes the Location value / the HTML page byte for byte from the regenerated model "
+                "(agree) and evaluates the monitor on the OBSERVED bytes with its own decoders; pages are additionally tokenised by golang.org/x/net/html and both views must coincide. "
+                "non-trivial = every class but the modal one; distinct = class x input",
+        "trivial_class": r"url:code:query:plain:redirect",
+        "trusted_base": ["net/url.Parse is an oracle: the theorems assume of its answer only C11.ParseOK (the part before the query is rendered without ?/# and addresses "
+                         "the same target; RawQuery is the URI's query text); the driver evaluates these conditions on every case (hyp=)",
+                         "net/url escape/unescape/Values.Encode/URL.String and html/template's attrEscaper/urlFilter/urlNormalizer are hand-modelled byte for byte "
+                         "(Model/AuthResponse.lean); tied by this stream (exact byte equality of Location / page)",
+                         "the zitadel/schema encoder is modelled as 'every non-empty field under its schema name'; the produced parameters are taken at the encoder boundary",
+                         "the specification's HTML tokenizer records start tags only, has no raw-text states and a short table of named character references; every page is also "
+                         "tokenised by golang.org/x/net/html in the harness and the monitor demands that both views are equal",
+                         "user-agent behaviour itself (WHATWG URL / HTML parsing) is represented by these decoders; http.Redirect's hexEscapeNonASCII is modelled"],
+        "assumptions": ["form_post: parameter values are Unicode strings without NUL and CR (HTML cannot carry them; DESIGN 4.21), proved for bytes without NUL / CR",
+                        "'as a user agent does': the raw text after # is parsed as application/x-www-form-urlencoded once",
+                        "pre-existing query parameters = what the same decoder reads from the redirect URI's query (pairs with ';' or a malformed escape are not parameters)"],
+    },
 }
